@@ -42,7 +42,40 @@ def item_ranges(rel):
     return [(it["item"], it["lines"][0], it["lines"][1]) for it in rep["items"] if it["file"] == rel and it["kind"] == "fn" and it["lines"][0] > 0]
 
 
+def harmless_of(rel):
+    """behaviour-preserving edits (MUT_SET=H): every `let`-bound local renamed throughout its function; `a < b` written as `b > a`.
+    Expected verdict: exit 0 (or 2), never 1."""
+    src = open("/repo/" + rel).read().split("\n")
+    out = []
+    for item, lo, hi in item_ranges(rel):
+        body = src[lo - 1:hi]
+        names = []
+        for l in body:
+            m = re.match(r"\s*let (?:mut )?([a-z_][a-z0-9_]*)\b\s*(?::|=)", l.split("//")[0])
+            if m and m.group(1) not in names and m.group(1) != "_":
+                names.append(m.group(1))
+        for nm in names:
+            new = [re.sub(r"(?<![A-Za-z0-9_.])%s(?![A-Za-z0-9_])" % re.escape(nm), nm + "_renamed", l) if not l.lstrip().startswith("//") else l for l in body]
+            if new != body:
+                out.append({"item": item, "line": lo, "kind": "rename local %s" % nm, "old": nm, "new": nm + "_renamed", "block": (lo, hi, new)})
+        for k, l in enumerate(body):
+            code = l.split("//")[0]
+            m = re.search(r"\b([a-z_][a-z0-9_.]*(?:\(\))?) (<|>|<=|>=) ([a-z_&*][a-z0-9_.&*]*(?:\(\))?)(?=[ ){]|$)", code)
+            if m and ln_ok(code):
+                flip = {"<": ">", ">": "<", "<=": ">=", ">=": "<="}[m.group(2)]
+                nl = l[:m.start()] + "%s %s %s" % (m.group(3), flip, m.group(1)) + l[m.end():]
+                nb = list(body); nb[k] = nl
+                out.append({"item": item, "line": lo + k, "kind": "flip comparison", "old": l.strip(), "new": nl.strip(), "block": (lo, hi, nb)})
+    return out
+
+
+def ln_ok(code):
+    return "fn " not in code and "impl" not in code and "->" not in code and "::<" not in code
+
+
 def mutants_of(rel):
+    if os.environ.get("MUT_SET") == "H":
+        return harmless_of(rel)
     src = open("/repo/" + rel).read().split("\n")
     out = []
     for item, lo, hi in item_ranges(rel):
@@ -98,7 +131,11 @@ def main():
             if (m["line"], m["kind"], m["old"]) in done:
                 continue
             lines = orig.split("\n")
-            lines[m["line"] - 1] = m["text"]
+            if "block" in m:
+                lo_, hi_, nb_ = m["block"]
+                lines[lo_ - 1:hi_] = nb_
+            else:
+                lines[m["line"] - 1] = m["text"]
             open(os.path.join(scratch, rel), "w").write("\n".join(lines))
             rc, log = sh(["cargo", "check", "--offline", "--lib", "--quiet"], cwd=scratch, env=env, timeout=600)
             rec = {k2: m[k2] for k2 in ("item", "line", "kind", "old", "new")}
